@@ -501,6 +501,18 @@ example : GrownFrom [c 10 200 5, c 13 200 9, c 17 120 12] [c 10 200 5, c 13 200 
   refine GrownFrom.cons _ _ _ _ rfl (by decide) (fun _ => rfl) ?_
   exact GrownFrom.cons _ _ [] _ rfl (by decide) (by intro h; exact absurd rfl h) (GrownFrom.nil _)
 
+/-! ## the MAXDBSIZE pass and a partition somebody holds (finding F77) -/
+
+/-- F77 — `dryrun_equals_run_full` needs `users = 0` for a reason: three partitions of 57 bytes, the newest events in
+partition 3, which a reader holds; `MAXDBSIZE 114`. The dry run announces partition 3 (and only it). The run removes
+partition 3's chunk, cannot drop it (`deleteJournal` refuses: in use), so it neither reports nor subtracts it, goes on
+and drops partition 2: the report names partition 2 only, partition 3 is left empty without a word. -/
+theorem cex_in_use_divergence :
+    let o : List Part := [⟨1, true, 0, [c 1 57 12]⟩, ⟨2, true, 0, [c 1 57 22]⟩, ⟨3, true, 1, [c 1 57 32]⟩]
+    (runNow { dryRun := true, maxDB := 114 } o).reports.map (·.src) = [3] ∧
+    (runNow { dryRun := false, maxDB := 114 } o).reports.map (·.src) = [2] ∧
+    (runNow { dryRun := false, maxDB := 114 } o).db = [⟨1, true, 0, [c 1 57 12]⟩, ⟨3, true, 1, []⟩] := by decide
+
 /-! ## chunk objects that outlive their chunk (finding F56, journal library) -/
 
 /-- F56 — two TRUNCATE statements overlap on a partition: both took the snapshot [1,2,3] and chose the two oldest
